@@ -140,9 +140,10 @@ def _h_three_digits():
 
 
 def _fmt03_digits():
+    from pyvc.engine import reveal_fmt03
     k = z3.Int('k')
     d = z3.Range('0', '9')
-    return [0 <= k, k <= 999], z3.InRe(fmt03(k), z3.Concat(d, d, d))
+    return [0 <= k, k <= 999, reveal_fmt03(k)], z3.InRe(fmt03(k), z3.Concat(d, d, d))
 
 
 def _fmt03_value():
